@@ -778,6 +778,10 @@ def run(ctx):
                            'where': 'periodogram.py / psd.py', 'log': str(e)[:2000]})
     else:
         ctx.check_generated('c01_pipeline', vtext, ['call_pipeline_is_modelled'])
+    # CORRELOGRAMPSD (correlation_method='CORRELATION' embedded; xcorr an oracle) and the 1-D path of speriodogram regenerated from the source into the
+    # loop-IR vs the hand models: exact at QcC with tw1 / tw2 / tw4, binary64 against the model (bit for bit) and the implementation
+    from props._loopir import loopir_tie
+    loopir_tie(ctx, ['CORRELOGRAMPSD', 'speriodogram'])
     pre = pre_float()
     requeue = []
     for nm, gen, pr, descr in (
